@@ -282,18 +282,56 @@ def gen_efuns(rng, tier, i):
     spec = _parse_spec()
     names = sorted(spec)
     nv = 12
-    setup = ['  g%d = %s;' % (k, rng.choice(VALUE_EXPRS)) for k in range(nv)]
+    gval = [rng.choice(VALUE_EXPRS) for k in range(nv)]
+    setup = ['  g%d = %s;' % (k, gval[k]) for k in range(nv)]
+
+    def tclass(e):
+        if e.startswith('([') : return 'map'
+        if e.startswith('({') or e.startswith('allocate(') or e.startswith('explode('): return 'arr'
+        if e.startswith('"') or e.startswith('repeat_string'): return 'str'
+        if e.startswith('(:'): return 'fun'
+        if re.fullmatch(r'-?[\d.]+(e\d+)?', e) and ('.' in e): return 'real'
+        if 'buffer' in e: return 'buf'
+        if e.startswith('this_object') or e.startswith('new('): return 'ob'
+        return 'int'
+    by_class = {}
+    for e in VALUE_EXPRS: by_class.setdefault(tclass(e), []).append(e)
     calls = []
     picked = []
     for _ in range(rng.randint(20, 50 if tier == 'quick' else 120)):
         if not names: break
+        if rng.random() < 0.4:
+            # operators instead of an efun: operands are held globals or temporaries (cast to mixed, so that the checks
+            # happen at run time, inside the catch)
+            def opnd():
+                r0 = rng.random()
+                if r0 < 0.2: return '((mixed)%s)' % rng.choice(('({ })', '({ })', '([ ])', '""', '0', 'allocate(0)'))     # empty operands take the early exits
+                return 'g%d' % rng.randrange(nv) if r0 < 0.6 else '((mixed)%s)' % rng.choice(VALUE_EXPRS)
+            A, B = opnd(), opnd()
+            if rng.random() < 0.5:
+                # both operands of one type: the type-specific branch of the operator runs, not its "bad argument" error
+                ea = gval[int(A[1:])] if A.startswith('g') else A[8:-1]
+                if ea == 'allocate(0)': ea = '({ })'
+                same = [k for k in range(nv) if tclass(gval[k]) == tclass(ea)]
+                B = 'g%d' % rng.choice(same) if same and rng.random() < 0.5 else '((mixed)%s)' % rng.choice(by_class[tclass(ea)])
+            form = rng.choice(('r = %s + %s;', 'r = %s - %s;', 'r = %s & %s;', 'r = %s | %s;', 'r = %s * %s;', 'r = %s / %s;', 'r = %s %% %s;', 'r = %s ^ %s;',
+                               'r = %s[%s];', 'r = %s[%s..];', 'r = %s[<%s];', 'r = %s[%s..<1];', 'r = (%s == %s);', 'r = (%s < %s);', 'r = %s << %s;',
+                               't = %s; t += %s;', 't = %s; t -= %s;', 't = %s; t &= %s;', 't = %s; t |= %s;', 't = %s; t *= %s;', 't = %s; t /= %s;',
+                               't = %s; t[0..1] = %s;', 't = %s; t[1..<1] = %s;', 't = %s; t[<2..] = %s;', 't = %s; t[0] = %s;', 't = %s; t[<1] = %s;',
+                               't = %s; t["k"] = %s;', 't = %s; t[0..0] = %s;', 'r = bind(%s, %s);', 'r = -%s + !%s;', 'r = %s ? %s : 0;', 'r = %s && %s;',
+                               't = %s; t[0][0] = %s;', 't = %s; t->a = %s;', 'r = sizeof(%s - %s);', 't = %s; t++; t = %s; t--;'))
+            if re.search(r't(\[[^.\]]*\])+ = %s|t->a = %s', form):
+                # storing a container into itself would build a reference cycle (counts cannot come back): element stores take scalars
+                B = '((mixed)%s)' % rng.choice(('0', '7', '-1', '1.5', '"abc"', '"%s%d"', 'repeat_string("xy", 200)', '65536'))
+            calls.append('  catch { ' + (form % (A, B)) + ' };'); picked.append('op:' + form.split('%s')[1].strip()[:6] if False else 'operator')
+            continue
         n = rng.choice(names); lo, hi = spec[n]
         cnt = rng.randint(lo, (hi if hi is not None else lo + 2))
         args = ', '.join('g%d' % rng.randrange(nv) for _ in range(cnt))
         calls.append('  catch(r = %s(%s));' % (n, args)); picked.append(n)
     src = ('inherit "/script";\nmixed ' + ', '.join('g%d' % k for k in range(nv)) + ';\nvoid create() { seteuid(getuid()); }\n'
            'void setup() {\n' + '\n'.join(setup) + '\n}\n'
-           'void run_efuns() {\n  mixed r;\n' + '\n'.join(calls) + '\n}\n'
+           'void run_efuns() {\n  mixed r, t;\n' + '\n'.join(calls) + '\n}\n'
            'void clearg() { ' + ' '.join('g%d = 0;' % k for k in range(nv)) + ' }\n')
     p = Plan()
     p.file('mcfg.h', mcfg({}))
@@ -328,13 +366,39 @@ _gen_values = gen
 def gen(rng, tier, i):
     # one scenario in four sends values through the efun surface instead of the scripted plumbing
     import os
-    if rng.random() < (1.0 if os.environ.get('C06_EFUNS_ONLY') else 0.25): return gen_efuns(rng, tier, i)
+    if rng.random() < (1.0 if os.environ.get('C06_EFUNS_ONLY') else 0.35): return gen_efuns(rng, tier, i)
     return _gen_values(rng, tier, i)
 
 
 _shrink_values = shrink_args
 
 
+def _shrink_efun_program(plan, fails):
+    """ddmin over the statements of run_efuns() in the generated program (the plan's rounds stay as they are)"""
+    hi = next((k for k, h in enumerate(plan.header) if h.startswith('file ' + enc('c6/e.c') + ' ')), None)
+    if hi is None: return plan
+    src = dec(plan.header[hi].split(' ')[2]).decode('latin-1')
+    m = re.search(r'(void run_efuns\(\) \{\n  mixed r, t;\n)(.*?)(\n\}\nvoid clearg)', src, re.S)
+    if not m: return plan
+    stmts = m.group(2).split('\n')
+
+    def build(lst):
+        q = plan.copy()
+        q.header[hi] = 'file %s %s' % (enc('c6/e.c'), enc(src[:m.start(2)] + '\n'.join(lst) + src[m.end(2):]))
+        return q
+    n = 2
+    while len(stmts) >= 2:
+        chunk = max(1, len(stmts) // n); reduced = False
+        for st in range(0, len(stmts), chunk):
+            cand = stmts[:st] + stmts[st + chunk:]
+            if cand and fails(build(cand)):
+                stmts = cand; n = max(n - 1, 2); reduced = True; break
+        if not reduced:
+            if chunk == 1: break
+            n = min(n * 2, len(stmts))
+    return build(stmts)
+
+
 def shrink_args(plan, fails):
-    if plan.meta.get('tmpl') is None: return plan      # efun scenarios are kept whole (the generated program is the replay)
+    if plan.meta.get('tmpl') is None: return _shrink_efun_program(plan, fails)
     return _shrink_values(plan, fails)
